@@ -21,18 +21,23 @@ def path_value(name, level, change, is_log, k):
     return level * change ** k if is_log else level + change * k
 
 
-def check(chk, ident, out, split, nvariants):
+def check(chk, ident, out, split, nvariants, flat_at="create"):
     m_ = out["m"]
     payload = {"kind": "steady", "id": ident, "src": list(out["src"]), "split_into_blocks": split, "variants": nvariants}
-    tag = "steady:%s:%s" % (ident, {None: "default", True: "blocks", False: "one-system"}[split])
+    tag = "steady:%s:%s%s" % (ident, {None: "default", True: "blocks", False: "one-system"}[split], "" if flat_at == "create" else ":flat-at-solve")
     desc = "model %s (%s) linear=%s flat=%s split_into_blocks=%s variants=%d" % (ident, " ".join(out["src"][-len(m_["eqs"]):]), m_["linear"], m_["flat"], split, nvariants)
     try:
-        m = ir.Simultaneous.from_string("\n".join(out["src"]) + "\n", linear=bool(m_["linear"]), flat=bool(m_["flat"]))
+        # the flat flag can be given when the model is created or when the steady state is solved
+        m = ir.Simultaneous.from_string("\n".join(out["src"]) + "\n", linear=bool(m_["linear"]), flat=bool(m_["flat"]) and flat_at == "create")
         if nvariants > 1:
             m.alter_num_variants(nvariants)
         if len(m_["pars"]):
             m.assign(**{n: float(fr(v)) for (n, v) in m_["pars"]})
         m.assign(**{n: 1.5 for n in m_["vars"]})
+        for (n, v) in m_.get("assign", ()):                  # levels that stay as assigned (unit roots)
+            m.assign(**{n: float(fr(v))})
+        for (n, lv_, ch_) in m_["xvars"]:                     # exogenous variables: assigned level and (in flat mode: to be ignored) change
+            m.assign(**{n: (float(fr(lv_)), float(fr(ch_)))})
         plan = None
         if len(m_["fix"]) or len(m_["swap"]):
             plan = ir.SteadyPlan(m)
@@ -40,13 +45,16 @@ def check(chk, ident, out, split, nvariants):
                 m.assign(**{n: float(fr(v))})
                 plan.fix_level(n)
             for (n, v, p) in m_["swap"]:
-                m.assign(**{n: float(fr(v))})
+                # an exogenized variable may carry a stale steady change; the flat path is constant all the same
+                m.assign(**{n: (float(fr(v)), 0.3) if m_["flat"] else float(fr(v))})
                 plan.swap((n, p))
         kw = {}
         if plan is not None:
             kw["plan"] = plan
         if split is not None:
             kw["split_into_blocks"] = split
+        if m_["flat"] and flat_at == "solve":
+            kw["flat"] = True
     except Exception as ex:
         chk.mismatch(tag + ":setup:" + type(ex).__name__, desc + ": setting up raised %r" % (ex,), payload)
         return False
@@ -63,12 +71,13 @@ def check(chk, ident, out, split, nvariants):
         def val(d, n):
             x = np.ravel(d[n])[0]
             return math.nan if x is None else float(x)
-        for n in m_["vars"]:
+        allnames = list(m_["vars"]) + list(m_["mvars"]) + [x[0] for x in m_["xvars"]]
+        for n in allnames:
             el, ec = float(fr(m_["level"][n])), float(fr(m_["change"][n]))
             gl, gc = val(lv, n), val(chg, n)
             if n in logrep:
                 gl, gc = math.log(gl), math.log(gc) if gc > 0 else math.nan
-            if not abs(gl - el) <= 1e-7 * max(1.0, abs(el)):
+            if not m_.get("freelevel", False) and not abs(gl - el) <= 1e-7 * max(1.0, abs(el)):
                 if m_["linear"] and any(f[0] == n for f in m_["fix"]):
                     chk.mismatch("steady:linear:fix_level-ignored", desc + ": the level of %s fixed by the steady plan at %r comes out as %r" % (n, el, gl), payload)
                     return True
@@ -84,7 +93,7 @@ def check(chk, ident, out, split, nvariants):
         # the statement itself, on the stored path: every steady equation at several dates
         for k in (-2, 0, 1, 3):
             def get(name, shift, k=k):
-                if name in m_["vars"]:
+                if name in allnames:
                     c = val(chg, name)
                     if name in logv:
                         c = c if (not m_["flat"] and c == c and c != 0) else 1.0
@@ -92,7 +101,7 @@ def check(chk, ident, out, split, nvariants):
                     c = c if (not m_["flat"] and c == c) else 0.0
                     return val(lv, name) + c * (k + shift)
                 return val(par, name)
-            for i, q in enumerate(m_["eqs"]):
+            for i, q in enumerate(list(m_["eqs"]) + list(m_["meqs"])):
                 r = ev(q["rhs"], get) - ev(q["lhs"], get)
                 if not abs(r) <= 1e-7 * max(1.0, abs(ev(q["rhs"], get))):
                     chk.mismatch(tag + ":equation", desc + ": steady equation %d has residual %r at date %+d on the stored steady path of variant %d" % (i + 1, r, k, vid), payload)
@@ -111,10 +120,11 @@ def run(chk):
             raise MachineryError("SteadyMC: certificate false in dump")
         for split in (None, True, False):
             for nv in (1, 2):
-                ok = check(chk, st["sc"], st["out"], split, nv)
-                n += 1
-                completed += bool(ok)
-                per_model[st["sc"]] = per_model.get(st["sc"], 0) + bool(ok)
+                for flat_at in (("create", "solve") if st["out"]["m"]["flat"] and not st["out"]["m"]["linear"] else ("create",)):
+                    ok = check(chk, st["sc"], st["out"], split, nv, flat_at)
+                    n += 1
+                    completed += bool(ok)
+                    per_model[st["sc"]] = per_model.get(st["sc"], 0) + bool(ok)
         if st["sc"] == "S2":
             chk.sample({"model": st["sc"], "source": list(st["out"]["src"]), "spec_levels": _plain(st["out"]["m"]["level"]), "spec_changes": _plain(st["out"]["m"]["change"]),
                         "plan_fix": _plain(st["out"]["m"]["fix"])})
